@@ -45,6 +45,10 @@ def match_D16(v, trace):
     tainted = _trades_placed_into_complete_trade(trace, v["step"])
     ents = _set(v["detail"]) or []
     trades = [e[1] if isinstance(e, list) else e for e in ents]
+    # the finding leaves a slot charged for a trade with nothing live ("stale"); a live trade that is
+    # not charged ("missing") is a different failure
+    if v["name"] == "LiveTradesExact" and any(isinstance(e, list) and len(e) > 2 and e[2] != "stale" for e in ents):
+        return False
     return bool(trades) and all(t in tainted for t in trades)
 
 
